@@ -3,7 +3,9 @@
    Modelled code (as it is):
      torrent/data/file_list.cc : FileList::initialize, split, chunk_index_size, is_valid_piece,
                                  create_chunk, create_chunk_part, create_chunk_index,
-                                 completed_bytes, left_bytes, mark_completed, inc_completed
+                                 completed_bytes, left_bytes, mark_completed, inc_completed (as repaired
+                                 by 17569a5: only files whose range contains the index are counted),
+                                 update_completed
      torrent/data/file.{h,cc}  : File::set_range, is_valid_position, prepare (create/resize queued)
      data/chunk.{h,cc}         : Chunk::push_back, at_position, to_buffer, from_buffer, compare_buffer
      data/chunk_iterator.h     : ChunkIterator ctor / data / next
@@ -103,6 +105,22 @@ Definition f_splice (im : fimg) (o : N) (d : bytes) : fimg :=
 
 Definition f_slice (im : fimg) (o k : N) : bytes := map (f_raw im) (nseq o (N.to_nat k)).
 
+(* SocketFile::create_chunk(offset, length): align = offset % page_size;
+   mmap(NULL, length + align, prot, flags, fd, offset - align); MemoryChunk(ptr, ptr + align,
+   ptr + align + length). w_moff/w_mlen = what the kernel is asked to map, w_begin = begin - ptr. *)
+Record mwin := mkWin { w_moff : N; w_mlen : N; w_begin : N }.
+
+Definition sf_window (page off len : N) : mwin :=
+  let align := off mod page in mkWin (off - align) (len + align) align.
+
+(* page_size < 4096 || page_size >= (1 << 18) -> internal_error *)
+Definition sf_page_ok (page : N) : bool := (4096 <=? page) && (page <? 262144).
+
+(* the bytes MemoryChunk::begin() .. end() denote: the mapped file bytes after the alignment gap *)
+Definition sf_bytes (page : N) (im : fimg) (off len : N) : bytes :=
+  let w := sf_window page off len in
+  skipn (N.to_nat (w_begin w)) (f_slice im (w_moff w) (w_mlen w)).
+
 Record state := mkState { s_store : list fimg; s_done : list bool; s_fcomp : list N }.
 
 Fixpoint upd {A} (l : list A) (i : nat) (x : A) : list A :=
@@ -175,6 +193,9 @@ Definition create_chunk (c : cfg) (store : list fimg) (off len : N) (w : bool) :
     | r => r
     end.
 
+(* MemoryChunk::page_align() of a part's mapping (anonymous padding memory starts on a page) *)
+Definition part_align (page : N) (p : part) : N := if p_pad p then 0 else p_foff p mod page.
+
 Definition chunk_size (ps : list part) : N := fold_right (fun p a => p_size p + a) 0 ps.
 
 (* ------------------------------------------------------------------ Chunk / ChunkIterator *)
@@ -215,13 +236,64 @@ Fixpoint write_segs (sg : list (part * N * N)) (data : bytes) (store : list fimg
              (upd store (p_file p) (f_splice (nth (p_file p) store fempty) (p_foff p + o) d)) cm
   end.
 
+Definition seg_read (store : list fimg) (cm : bytes) (p : part) (o k : N) : bytes :=
+  if p_pad p then slice cm (p_pos p + o) k else f_slice (nth (p_file p) store fempty) (p_foff p + o) k.
+
 Fixpoint read_segs (sg : list (part * N * N)) (store : list fimg) (cm : bytes) : bytes :=
   match sg with
   | [] => []
   | (p, o, k) :: r =>
-      (if p_pad p then slice cm (p_pos p + o) k
-       else f_slice (nth (p_file p) store fempty) (p_foff p + o) k) ++ read_segs r store cm
+      seg_read store cm p o k ++ read_segs r store cm
   end.
+
+Fixpoint beq_bytes (a b : bytes) : bool :=
+  match a, b with
+  | [], [] => true
+  | x :: a', y :: b' => (x =? y) && beq_bytes a' b'
+  | _, _ => false
+  end.
+
+(* Chunk::compare_buffer: memcmp segment by segment, false at the first differing segment *)
+Fixpoint compare_segs (sg : list (part * N * N)) (data : bytes) (store : list fimg) (cm : bytes) : bool :=
+  match sg with
+  | [] => true
+  | (p, o, k) :: r =>
+      if beq_bytes (seg_read store cm p o k) (firstn (N.to_nat k) data)
+      then compare_segs r (skipn (N.to_nat k) data) store cm
+      else false
+  end.
+
+(* HashChunk::perform(length, force = true) starting at m_position = pos: the segments handed to
+   Sha1::update, in order. while (l) { node = at_position(m_position); l -= perform_part(node, l); } *)
+Inductive hres := HErr | HFuel | HOk (sg : list (part * N * N)).
+
+Definition hcons (x : part * N * N) (r : hres) : hres :=
+  match r with HOk sg => HOk (x :: sg) | e => e end.
+
+Fixpoint at_part (ps : list part) (pos : N) : option part :=
+  match ps with
+  | [] => None
+  | p :: r => if (p_pos p <=? pos) && (pos <? p_pos p + p_size p) then Some p else at_part r pos
+  end.
+
+Fixpoint hash_feed (fuel : nat) (ps : list part) (pos l : N) : hres :=
+  if l =? 0 then HOk []
+  else match fuel with
+  | O => HFuel
+  | S fu =>
+      match at_part ps pos with
+      | None => HErr                                   (* Chunk::at_position throws *)
+      | Some p =>
+          let o := pos - p_pos p in
+          let k := N.min l (p_size p - o) in
+          hcons (p, o, k) (hash_feed fu ps (pos + k) (l - k))
+      end
+  end.
+
+Definition hash_perform (ps : list part) (pos len : N) : hres :=
+  let l := N.min len (chunk_size ps - pos) in
+  if chunk_size ps <? u32 (pos + l) then HErr
+  else hash_feed (S (length ps)) ps pos l.
 
 (* common prologue of to_buffer / from_buffer / compare_buffer:
    None = internal_error, Some [] = length 0 (return true at once), Some segs otherwise *)
@@ -239,9 +311,14 @@ Definition buffer_segs (ps : list part) (pos n : N) : option (list (part * N * N
 Fixpoint count_true (l : list bool) : N :=
   match l with [] => 0 | b :: r => (if b then 1 else 0) + count_true r end.
 
+(* a file is counted for piece idx only if its piece range contains idx *)
+Definition bump (f : file) (idx x : N) : N :=
+  if (f_r1 f <=? idx) && (idx <? f_r2 f) then x + 1 else x.
+
 Fixpoint inc_phase (fs : list file) (fc : list N) (idx : N) : list N :=
   match fs, fc with
-  | f :: fs', x :: fc' => (x + 1) :: (if u32 (idx + 1) <? f_r2 f then fc' else inc_phase fs' fc' idx)
+  | f :: fs', x :: fc' =>
+      bump f idx x :: (if u32 (idx + 1) <? f_r2 f then fc' else inc_phase fs' fc' idx)
   | _, _ => fc
   end.
 
@@ -259,8 +336,8 @@ Fixpoint inc_completed (fs : list file) (fc : list N) (idx : N) : option (list N
 Fixpoint inc_phase_pos (fs : list file) (fc : list N) (idx : N) : list N * nat :=
   match fs, fc with
   | f :: fs', x :: fc' =>
-      if u32 (idx + 1) <? f_r2 f then ((x + 1) :: fc', O)
-      else let r := inc_phase_pos fs' fc' idx in ((x + 1) :: fst r, S (snd r))
+      if u32 (idx + 1) <? f_r2 f then (bump f idx x :: fc', O)
+      else let r := inc_phase_pos fs' fc' idx in (bump f idx x :: fst r, S (snd r))
   | _, _ => (fc, O)
   end.
 
@@ -326,7 +403,8 @@ Inductive op :=
 | OpReopen                       (* close; open; bitfield allocate + unset_all; update_completed *)
 | OpSetBit (idx : N)             (* Bitfield::set(idx) only (resume / hash-check bookkeeping) *)
 | OpUpdate                       (* FileList::update_completed *)
-| OpPread (i : nat) (off len : N).  (* plain pread of file i *)
+| OpPread (i : nat) (off len : N)   (* plain pread of file i *)
+| OpHash (idx : N) (steps : list N). (* HashChunk over piece idx: perform(l) per step, then perform(remaining) *)
 
 Inductive wres := WSkip | WErr | WOk.
 
@@ -341,14 +419,8 @@ Inductive out :=
 | OutDump (imgs : list (option bytes))        (* None = padding entry: no file *)
 | OutUpd (ok : bool)
 | OutSet (ok : bool)
-| OutPread (size : option N) (bs : bytes).    (* None = no such file (padding / index) *)
-
-Fixpoint beq_bytes (a b : bytes) : bool :=
-  match a, b with
-  | [], [] => true
-  | x :: a', y :: b' => (x =? y) && beq_bytes a' b'
-  | _, _ => false
-  end.
+| OutPread (size : option N) (bs : bytes)     (* None = no such file (padding / index) *)
+| OutHash (fed : option bytes) (pos : N).     (* bytes handed to SHA-1 in order; None = internal_error *)
 
 (* create_chunk; from_buffer(data, pos) when writable; to_buffer(rpos, rn);
    compare_buffer(data, pos); the chunk is then synced and destroyed *)
@@ -368,7 +440,7 @@ Definition do_chunk (c : cfg) (s : state) (off len : N) (w : bool) (pos : N) (da
           end
         else (st, cm0, WSkip) in
       let rd := option_map (fun sg => read_segs sg st1 cm1) (buffer_segs ps rpos rn) in
-      let cmp := option_map (fun sg => beq_bytes (read_segs sg st1 cm1) data) (buffer_segs ps pos n) in
+      let cmp := option_map (fun sg => compare_segs sg data st1 cm1) (buffer_segs ps pos n) in
       (mkState st1 (s_done s) (s_fcomp s), OutChunk ps wr rd cmp)
   end.
 
@@ -380,6 +452,25 @@ Fixpoint set_nth (l : list bool) (i : nat) : list bool :=
   end.
 
 Definition f_dump (im : fimg) : bytes := f_slice im 0 (fi_len im).
+
+(* a HashChunk driven by perform(l1), perform(l2), ..., perform(remaining()) *)
+Fixpoint hash_steps (ps : list part) (store : list fimg) (cm : bytes) (pos : N) (steps : list N)
+  : option bytes * N :=
+  match steps with
+  | [] =>
+      match hash_perform ps pos (chunk_size ps - pos) with
+      | HOk sg => (Some (read_segs sg store cm), chunk_size ps)
+      | _ => (None, pos)
+      end
+  | l :: r =>
+      match hash_perform ps pos l with
+      | HOk sg =>
+          let pos' := pos + N.min l (chunk_size ps - pos) in
+          let rr := hash_steps ps store cm pos' r in
+          (option_map (app (read_segs sg store cm)) (fst rr), snd rr)
+      | _ => (None, pos)
+      end
+  end.
 
 Definition step (c : cfg) (s : state) (o : op) : state * out :=
   match o with
@@ -424,6 +515,15 @@ Definition step (c : cfg) (s : state) (o : op) : state * out :=
           else let im := nth i (s_store s) fempty in
                (s, OutPread (Some (fi_len im)) (f_slice im off (N.min len (fi_len im - off))))
       | None => (s, OutPread None [])
+      end
+  | OpHash idx steps =>
+      (* create_hashing_chunk_index(idx, prot_read) *)
+      match create_chunk c (s_store s) (idx * c_cs c) (chunk_index_size c idx) false with
+      | CErr => (s, OutErr)
+      | CNull st => (mkState st (s_done s) (s_fcomp s), OutNull)
+      | COk st ps =>
+          let r := hash_steps ps st (zeros (N.to_nat (chunk_size ps))) 0 steps in
+          (mkState st (s_done s) (s_fcomp s), OutHash (fst r) (snd r))
       end
   end.
 
